@@ -99,7 +99,7 @@ TEXTS = {
                 "'value of the documented formula', finite and >= 0 are decided per input by spec_C04, which recomputes all 24 scores "
                 "of every ordered pair from the crate's own observation (ancestor sets, ICs, shortest distances, annotation sets) in binary32 "
                 "and demands bit equality, equality under argument swap, no NaN / infinity / negative value and the special cases; the "
-                "transcription is diffed bit for bit against the crate. No theorem covers float rounding / overflow; expf is an oracle. C04_constructed_scores_nonnegative: the same for every ontology produced by any public constructor.",
+                "transcription is diffed bit for bit against the crate. No theorem covers float rounding / overflow; expf is an oracle. C04_constructed_scores_nonnegative: the same for every ontology produced by any public constructor. TOTALITY (C04_ic_similarities_return, C04_distance_similarity_returns): for terms of an acyclic ontology with exact caches the six IC-based algorithms always return; Distance returns when the distance fits u16.",
         "design_ref": "DESIGN.md §4 C04",
         "note": NOTE_COMMON + "Flocq binary32 = Rust f32 arithmetic; logf / expf sampled.",
         "technique": TECH,
@@ -251,7 +251,7 @@ TEXTS = {
                 "direct terms that are retained; the result is acyclic and every one of its terms carries exactly the kept records with a "
                 "retained direct term at the term or below it (the C02 statement holds again in the result). spec_C14 states retained set, induced links, copied names/flags, "
                 "preserved distances, refusal iff a leaf is outside the subtree, the annotation filter, and re-runs the executable statements "
-                "of C01-C03 on the result, evaluated on the crate's observation; the transcription is diffed against the crate. LEAF DISTANCE (C14_model_leaf_distance_kept): every leaf reaches root in the result by a chain whose length is the shortest distance in the source, and no chain of the result is shorter; C14_model_contains_leaves_and_root. C14_model_acceptance: the call is refused only then (the retained set is computed whenever every leaf is root or below it); C14_model_leaf_collection_is_a_set: order and multiplicity of the leaves are irrelevant.",
+                "of C01-C03 on the result, evaluated on the crate's observation; the transcription is diffed against the crate. LEAF DISTANCE (C14_model_leaf_distance_kept): every leaf reaches root in the result by a chain whose length is the shortest distance in the source, and no chain of the result is shorter; C14_model_contains_leaves_and_root. C14_model_acceptance: the call is refused only then (the retained set is computed whenever every leaf is root or below it); C14_model_leaf_collection_is_a_set: order and multiplicity of the leaves are irrelevant. C14_model_sub_ontology_returns: the whole call returns for an acyclic source with exact caches when every leaf is a stored term that is root or below it (and the IC function is defined on counts up to the source's).",
         "design_ref": "DESIGN.md §4 C14, §9", "note": NOTE_COMMON, "technique": TECH,
     },
     "C17": {
